@@ -336,3 +336,46 @@ PROPS["C03"] = {
             "workers": 8, "timeout": {"quick": 600, "thorough": 7200}}],
     "assumptions": TERM_ASSUME,
 }
+
+PROPS["C06"] = {
+    "level": "model_checking",
+    "exhaustive": True,
+    "technique": "TLC enumeration of the objective case table (Objective.tla: loss, documented gradient, clamp, symbolic derivative) + replay into "
+                 "objective::Function::loss with term evaluation",
+    "level_text": "TLC enumerates objective x gradient clamp (none / symmetric / one-sided / degenerate) x shape (flat and 3-D) x a boundary grid of "
+                  "targets and predictions (0, eps, 1/4, 1/2, 3/4, 1-eps, 1; all 49 pairs for single elements, rotations for several), builds the "
+                  "reported-loss term, the documented per-element gradient, its clamped form and -- for AE, MSE, BCE and KL -- the symbolic "
+                  "derivative of the loss term; every case is replayed on the grid data and on seeded in-domain floats: loss and gradient "
+                  "within 1e-5, gradient shape = prediction shape, components inside the clamp, gradient = derivative of the loss away from "
+                  "kinks and clamp edges, loss finite",
+    "level_note": "accuracy of ln near 0 beyond 1e-5 is not examined; shapes up to 2x3x1; the derivative clause is checked where the specification "
+                  "marks the point as smooth",
+    "rule": "one case = one (objective, clamp, shape, grid rotation); each replayed on grid data and on random floats; distinct = distinct "
+            "(objective, clamp, shape, data); non-trivial = all",
+    "mc": [{"module": "MC_C06",
+            "consts": {"quick": {"Shapes": "{1, 2, 3, 5, 6}", "Offsets": "{0, 1, 2, 3, 4, 5, 6}"},
+                       "thorough": {"Shapes": "{1, 2, 3, 4, 5, 6, 7, 8}", "Offsets": "{0, 1, 2, 3, 4, 5, 6}"}},
+            "workers": 8, "timeout": {"quick": 600, "thorough": 3600}}],
+    "assumptions": TERM_ASSUME + ["convention 0 * ln(0/p) = 0 for the KL divergence"],
+}
+
+PROPS["C07"] = {
+    "level": "other",
+    "technique": "TLC enumeration of the activation case table (Activation.tla: defined function, derivative, symbolic derivative, ranges) + replay into "
+                 "activation::Function::{forward,backward} + harness sweep over single-precision bit patterns against the specification's terms",
+    "explanation": "The specification owns each activation's defining term, its documented derivative, the derivative obtained symbolically from the "
+                   "forward term, and the closed ranges; TLC only enumerates the finite case table (activation x direction x rank x grid class, "
+                   "soft-max vectors with exact shifts and huge entries). The quantifier 'every finite single-precision input' is covered by the "
+                   "harness enumerating bit patterns (every 4099th in the quick tier, every 13th in the thorough tier; stride 1 = all 2^32 is "
+                   "available through `vharness sweep-activations <cases> 1 <out>`) and checking each against the specification-supplied term "
+                   "(double-precision reference, 1e-5) and range; that part is plain enumeration with a specification-derived oracle, which is why "
+                   "the level is 'other' rather than model_checking.",
+    "level_text": "case table model-checked and replayed exactly (grid: k/8 for |k|<=64, +-2^e for every e in -149..127, +-max, +-min normal, +-0; both "
+                  "tensor ranks; backward equal to the symbolic derivative of forward on the dyadic grid; soft-max: non-negative, sums to one, "
+                  "shift-invariant, finite for huge inputs) plus a strided sweep of all bit patterns for the five element-wise activations in both directions",
+    "level_note": "smooth activations are compared with a double-precision evaluation of the specification's term within 1e-5; the sweep is strided",
+    "rule": "one case = one (activation, direction, rank, grid class) with all its grid points, or one soft-max vector; sweep units = (activation, direction); all distinct; non-trivial = all",
+    "mc": [{"module": "MC_C07", "consts": {"quick": {"SoftLens": "{1, 2, 3, 4, 5, 6}"}, "thorough": {"SoftLens": "{1, 2, 3, 4, 5, 6}"}},
+            "workers": 4, "after": {"cmd": "sweep-activations", "arg": {"quick": 4099, "thorough": 13}}}],
+    "assumptions": TERM_ASSUME + ["the double-precision libm functions exp/tanh/cosh are accurate to far better than 1e-5"],
+}
